@@ -5,7 +5,8 @@
 From Coq Require Import QArith List Arith ZArith Permutation Lia.
 From BCT Require Import Base.Mat Base.SumQ Base.ListX Model.Modularity Model.ModularityProb Proofs.ModularitySums
   Proofs.ModularityQ Proofs.ModularityGain Proofs.ModularityRun Proofs.ModularityRunSign Proofs.ModularityRunB
-  Proofs.ModularityProb Proofs.ModularityBound.
+  Proofs.ModularityProb Proofs.ModularityBound Model.ModularitySelect Proofs.ModularitySelect Proofs.ModularityAuto
+  Proofs.ModularityRunFull.
 Import ListNotations.
 Open Scope Q_scope.
 
@@ -88,19 +89,58 @@ Theorem C02_given_partition_returns_Q_sign : forall n W qt lb, lab_lt n n lb -> 
 Proof. exact given_partition_returns_Q_sign. Qed.
 
 (* ---- spectral modularity_und / modularity_dir (kci=None) ----
-   full statement (NOT proved): the bisection with LAPACK's eigenvectors returns a partition, labelled 1..k, and its Q.
-   PARTIAL: the eigenvector sign pattern + fine-tuning sweep is an arbitrary oracle [split] that, when it splits a module,
-   returns two non-empty parts (the code's `abs(sum(mod_asgn)) == n` test); for every such oracle and every recursion
-   depth the labels are exactly 1..k and the closing statement is the definitional Q of those labels. *)
-Definition C02_spectral_full_statement : Prop :=
+   ORACLE-LEVEL statement: the eigenvector sign pattern + fine-tuning sweep is an arbitrary oracle [split] that, when it
+   splits a module, returns two non-empty parts; for every such oracle and every recursion depth the labels are exactly
+   1..k and the closing statement is the definitional Q of those labels. (It says nothing about WHICH partition the
+   numeric kernel finds: `_partial`.) *)
+Definition C02_spectral_oracle_statement : Prop :=
   forall n fuel split, good_split split -> (0 < n)%nat ->
   let ls := bisect fuel split (seq 0 n) in
   (forall x, (x < n)%nat -> (1 <= ls2ci ls x <= length ls)%nat) /\
   (forall l, (1 <= l <= length ls)%nat -> exists x, (x < n)%nat /\ ls2ci ls x = l) /\
   (forall A g, given_und n A g (ls2ci ls) == Qund n A g (ls2ci ls)) /\
   (forall A g, given_dir n A g (ls2ci ls) == Qdir n A g (ls2ci ls)).
-Theorem C02_spectral_labels_partial : C02_spectral_full_statement.
+Theorem C02_spectral_labels_partial : C02_spectral_oracle_statement.
 Proof. exact spectral_labels_partial. Qed.
+(* the code's own statements around the kernel are in the model (Model/ModularitySelect.v: spectral_split = the
+   `abs(sum(mod_asgn)) == n` null-module test + the where(mod_asgn == +-1) selections; run_spectral = recur from
+   arange(n), ls2ci, closing statement) and are RUN against the implementation on the recorded decision tree: for EVERY
+   decision oracle [asgn] (None = `q > 0` failed, Some a = final mod_asgn) the split is good, so the extracted run returns
+   labels exactly 1..k and q = the definitional modularity of those labels *)
+Theorem C02_spectral_split_good : forall asgn, good_split (spectral_split asgn).
+Proof. exact spectral_split_good. Qed.
+Theorem C02_run_spectral_oracle : forall dir rows g fuel asgn, (0 < length rows)%nat ->
+  let r := run_spectral dir rows g fuel asgn in
+  fst (snd r) = snd (snd r) /\ exists k, labels_exact (length rows) (fst r) k.
+Proof. exact run_spectral_ok. Qed.
+(* THE FULL STATEMENT of the clause (named, NOT proved): the decision of `recur` is [spectral_decide] — the `q > 0` test
+   and the Kernighan-Lin style sweep [kl_loop] exactly over Q — applied to the sign pattern [eig md] of LAPACK's leading
+   eigenvector; the recursion completes within n levels; the result is labelled 1..k with its definitional Q.
+   PARTIAL: proved are the label / q conjuncts for every [eig] (they follow from the oracle theorem); missing are the
+   completion conjunct and — outside Coq — any tie of [spectral_decide] / [eig] to the floating-point kernel (eig/eigh and
+   the sweep's float comparisons are tie-ridden; they are not run against the code). *)
+Definition C02_spectral_full_statement : Prop := spectral_full_statement.
+Theorem C02_spectral_full_partial : forall dir rows g eig, (0 < length rows)%nat ->
+  let n := length rows in
+  let r := run_spectral dir rows g n (fun md => spectral_decide dir n (of_rows 0 rows) g md (eig md)) in
+  fst (snd r) = snd (snd r) /\ (exists k, labels_exact n (fst r) k).
+Proof. exact spectral_full_instance. Qed.
+Example C02_run_spectral_nonvacuous :
+  let tb := [([0; 1; 2; 3; 4; 5], Some [true; true; true; false; false; false]); ([0; 1; 2], None);
+             ([3; 4; 5], Some [true; true; true])]%nat in
+  fst (run_spectral_table false ex_rows 1 tb) = [1; 1; 1; 2; 2; 2]%nat /\
+  fst (snd (run_spectral_table false ex_rows 1 tb)) = 5 # 14.
+Proof. exact run_spectral_nonvacuous. Qed.
+
+(* ---- given partition, on the EXTRACTED functions (composed with init_lab: any integer label list) ---- *)
+Theorem C02_run_given_consistent : forall dir rows g ci, fst (run_given dir rows g ci) = snd (run_given dir rows g ci).
+Proof. exact run_given_consistent. Qed.
+Theorem C02_run_und_sign_consistent : forall rows qt ci, sym_rows rows ->
+  let r := run_und_sign rows qt ci in
+  fst (snd r) = snd (snd r) /\ (exists k, labels_exact (length rows) (fst r) k) /\
+  (forall u v, (u < length rows)%nat -> (v < length rows)%nat ->
+     (nth u (fst r) O = nth v (fst r) O <-> nth u ci 0%Z = nth v ci 0%Z)).
+Proof. exact run_und_sign_consistent. Qed.
 
 (* ---- end to end on the EXTRACTED run functions (the ones the driver executes): returned q = definitional Q of the
    returned labels, as a Leibniz equality of the reduced fractions, for every input and every recorded move list ---- *)
@@ -111,6 +151,13 @@ Theorem C02_run_finetune_und_consistent : forall rows g ci moves,
   sym_on (length rows) (of_rows 0 rows) ->
   let r := run_finetune_und rows g ci moves in ret_q r = ret_qdef r.
 Proof. exact run_finetune_und_consistent. Qed.
+
+Theorem C02_run_finetune_und_labels : forall rows g ci moves,
+  let r := run_finetune_und rows g ci moves in exists k, labels_exact (length rows) (ret_ci r) k.
+Proof. exact run_finetune_und_labels. Qed.
+Theorem C02_run_finetune_dir_labels : forall rows g ci moves,
+  let r := run_finetune_dir rows g ci moves in exists k, labels_exact (length rows) (ret_ci r) k.
+Proof. exact run_finetune_dir_labels. Qed.
 
 (* ==== WHOLE RUNS (every input, gamma, level count and recorded move lists; floats only choose moves / level count) ====
    [sym_rows rows] = the input matrix is symmetric; [rowsW rows] = the input as the model holds it;
@@ -144,6 +191,22 @@ Proof. exact louvain_und_run_q_domain. Qed.
 Theorem C02_louvain_und_run_levels : forall rows g lv, sym_rows rows ->
   Forall (level_pair_ok (length rows) (Qund (length rows) (rowsW rows) g)) (fst (run_louvain_und rows g lv)).
 Proof. exact louvain_und_run_levels. Qed.
+
+(* hierarchy=True, the RETURNED lists (run_louvain_und_hier = ci[1:-1], q[1:-1]: all computed levels but the last): equal
+   length, every pair consistent on the original network with labels exactly 1..k, q's strictly increasing from -1 by at
+   least 1e-10 each — so the TRUE modularities of the returned partitions increase strictly *)
+Theorem C02_louvain_und_hierarchy : forall rows g lv, sym_rows rows ->
+  stop_rule_ok (level_qs (run_louvain_und rows g lv)) ->
+  let h := run_louvain_und_hier rows g lv in
+  length (fst h) = length (snd h) /\
+  Forall2 (fun ci q => (exists k, labels_exact (length rows) ci k) /\
+                       q = Qred (Qund (length rows) (rowsW rows) g (fun x => nth x ci O))) (fst h) (snd h) /\
+  incr_from (- (1)) (snd h).
+Proof. exact louvain_und_hierarchy. Qed.
+Example C02_stop_rule_nonvacuous :
+  sym_rows ex_rows /\ nonneg_rows ex_rows /\ 0 < stot (length ex_rows) (rowsW ex_rows) /\ ex_lv <> [] /\
+  stop_rule_ok (level_qs (run_louvain_und ex_rows 1 ex_lv)) /\ level_qs (run_louvain_und ex_rows 1 ex_lv) = [5 # 14; 5 # 14].
+Proof. exact louvain_und_run_q_domain_nonvacuous. Qed.
 
 (* ---- modularity_louvain_und_sign: at least one level is always executed, the LAST one is returned (after np.unique) ---- *)
 Theorem C02_louvain_und_sign_run_q : forall rows g qt lv, sym_rows rows -> lv <> [] ->
@@ -280,3 +343,11 @@ Print Assumptions C02_probtune_run_q.
 Print Assumptions C02_probtune_run_completes.
 Print Assumptions C02_Qund_lower_bound.
 Print Assumptions C02_louvain_und_run_q_domain.
+Print Assumptions C02_spectral_split_good.
+Print Assumptions C02_run_spectral_oracle.
+Print Assumptions C02_spectral_full_partial.
+Print Assumptions C02_run_given_consistent.
+Print Assumptions C02_run_und_sign_consistent.
+Print Assumptions C02_run_finetune_und_labels.
+Print Assumptions C02_run_finetune_dir_labels.
+Print Assumptions C02_louvain_und_hierarchy.
